@@ -142,6 +142,9 @@ func (d *ioDelegate) TryCache(h hash.Hash, data []byte) (bool, error) {
 			os.Remove(f.Name())
 		}
 		d.cache = f
+		if f != nil && err == nil {
+			createdCache = f.Name()
+		}
 		return false, nil
 	}
 
@@ -158,7 +161,26 @@ func (d *ioDelegate) TryCache(h hash.Hash, data []byte) (bool, error) {
 	return true, nil
 }
 
+// createdCache is the path of the cache entry this process is writing, if any.
+var createdCache string
+
+// discardCreatedCache removes the entry written by a run that failed, so that
+// a later identical invocation does not replay its (partial) output as a
+// success.
+func discardCreatedCache() {
+	if createdCache != "" {
+		os.Remove(createdCache)
+		createdCache = ""
+	}
+}
+
 func (d *ioDelegate) Close() error {
+	if r := recover(); r != nil {
+		// Close runs deferred: a panicking command must not leave an entry.
+		discardCreatedCache()
+		panic(r)
+	}
+
 	if d.tmpin {
 		defer os.Remove(d.infile.Name())
 	}
